@@ -1,6 +1,7 @@
 import MpVerif.C07.Lemmas
 import MpVerif.C07.LemmasRecomp
 import MpVerif.C07.LemmasPL
+import MpVerif.Gen.SolCheck
 set_option linter.unusedSimpArgs false
 /-!
 # C07 — property theorems
@@ -443,5 +444,247 @@ theorem C07_adef_never_reported (res : Nat) (ctx : Ctx) (b : Body) (e : Env) (ea
   simp only [Con.viol, Violation.check]
   have : ¬ (ea < 0) := by grind
   simp [this]
+
+/-! ## 8. the hand model equals the definitions generated from the source (`translators/gen_solcheck.py`)
+
+`MpVerif.Gen.SolCheck` is regenerated on every run from the clang AST of the current tree.  The theorems below state, for
+all arguments, that the model's decision functions are these generated functions (doubles read as `GenSem.D`); so the
+theorems above speak about the code's own logic, and a change of that logic in the source breaks one of these obligations. -/
+
+open GenSem
+namespace G
+export MpVerif.Gen.SolCheck (violationCheck algComputeViolation rangeIsValid rhsIsValidLT rhsIsValidLE rhsIsValidEQ rhsIsValidGE
+  rhsIsValidGT rhsLbLT rhsUbLT rhsLbLE rhsUbLE rhsLbEQ rhsUbEQ rhsLbGE rhsUbGE rhsLbGT rhsUbGT funcComputeViolation
+  condComputeViolation countViol checkViol conClass conSelected conSlot realMask idealMask varsBit consMask objBit idealShift
+  failCode ctxnone ctxpos ctxneg ctxmix computeValueTypes computeViolationSites)
+end G
+
+/-- the code of a context in `mp::Context::CtxVal` (generated enumerator values) -/
+def ctxCode : Ctx → Nat
+  | .none => G.ctxnone | .pos => G.ctxpos | .neg => G.ctxneg | .mix => G.ctxmix
+
+/-- a model violation as the pair of doubles `{viol_, valX_}` -/
+def violD (v : Violation) : D × D := (v.viol, D.fin v.ref)
+
+/-! ## `Violation::Check` -/
+
+/-- **C07_gen_check**: the model's tolerance test is the generated `Violation::Check`, for every finite or infinite
+violation amount (for `+∞` with the reference value the code produces, 0) -/
+theorem C07_gen_check (v : Violation) (ea er : Rat) (h : v.viol = .pinf → v.ref = 0) :
+    G.violationCheck v.viol (D.fin v.ref) (D.fin ea) (D.fin er) =
+      ((v.check ea (some er)).1, D.fin (v.check ea (some er)).2) := by
+  obtain ⟨viol, r⟩ := v
+  cases viol with
+  | ninf => simp [Gen.SolCheck.violationCheck, Violation.check, D.gt, D.fin, ER.lt, D.ofInt]
+  | pinf =>
+    have hr : r = 0 := h rfl
+    subst hr
+    simp [Gen.SolCheck.violationCheck, Violation.check, D.gt, D.fin, ER.lt, D.ofInt, D.eq, D.abs, rabs]
+  | fin a =>
+    simp only [Gen.SolCheck.violationCheck, Violation.check, D.gt, D.fin, ER.lt, D.ofInt, D.eq, D.abs, D.div]
+    by_cases h1 : ea < a
+    · by_cases h2 : r = 0
+      · subst h2; simp [h1, rabs]
+      · have hr : ¬ (0 = rabs r) := by have := rabs_pos h2; grind
+        by_cases h3 : er < rabs (a / r) <;> simp [h1, h2, hr, h3, ER.lt]
+    · simp [h1]
+
+/-! ## algebraic constraints -/
+
+/-- **C07_gen_alg**: `AlgebraicConstraint::ComputeViolation(x, false)` -/
+theorem C07_gen_alg (c : AlgCon) (x : Pt) (valid : Bool) :
+    G.algComputeViolation (D.fin (c.body.val x)) (loD c.lo) (hiD c.hi) valid false = violD (c.viol x) := by
+  unfold AlgCon.viol violD
+  generalize c.body.val x = bd
+  cases hlo : c.lo <;> cases hhi : c.hi <;>
+    simp only [Gen.SolCheck.algComputeViolation, loD, hiD, D.gt, D.fin, ER.lt, D.sub, D.neg, D.add, D.max', D.ofInt,
+      Bool.false_eq_true, if_false, decide_eq_true_eq]
+  · simp
+  · split <;> simp [ER.lt] <;> grind
+  · split <;> simp [ER.lt] <;> grind
+  · rename_i l u
+    by_cases h1 : bd < l
+    · simp [h1]; grind
+    · by_cases h2 : u < bd
+      · simp [h1, h2]; grind
+      · simp only [h1, h2, if_false]
+        have : max (l - bd) (bd - u) = if l + -bd < bd + -u then bd + -u else l + -bd := by
+          rw [Rat.max_def]; split <;> split <;> grind
+        simp [this]; split <;> simp <;> grind
+
+/-- logical mode `ComputeViolation(x, true)`: `{double(!is_valid(bd)), 1.0}` -/
+theorem C07_gen_alg_logical (c : AlgCon) (x : Pt) :
+    G.algComputeViolation (D.fin (c.body.val x)) (loD c.lo) (hiD c.hi) (c.isValid (c.body.val x)) true =
+      violD (c.violLogical x) := by
+  unfold AlgCon.violLogical violD
+  simp only [Gen.SolCheck.algComputeViolation, if_true, D.ofBool, D.ofInt, D.fin]
+  cases c.isValid (c.body.val x) <;> simp
+
+/-- **C07_gen_isvalid**: `is_valid`, `lb()`, `ub()` of the five right-hand-side classes and of the range class are what the
+model uses for the corresponding kinds -/
+theorem C07_gen_isvalid (b : Body) (r l u bd : Rat) :
+    ((⟨b, .lt, none, some r⟩ : AlgCon).isValid bd = G.rhsIsValidLT (D.fin bd) (D.fin r) ∧ loD none = G.rhsLbLT (D.fin r) ∧ hiD (some r) = G.rhsUbLT (D.fin r)) ∧
+    ((⟨b, .le, none, some r⟩ : AlgCon).isValid bd = G.rhsIsValidLE (D.fin bd) (D.fin r) ∧ loD none = G.rhsLbLE (D.fin r) ∧ hiD (some r) = G.rhsUbLE (D.fin r)) ∧
+    ((⟨b, .eq, some r, some r⟩ : AlgCon).isValid bd = G.rhsIsValidEQ (D.fin bd) (D.fin r) ∧ loD (some r) = G.rhsLbEQ (D.fin r) ∧ hiD (some r) = G.rhsUbEQ (D.fin r)) ∧
+    ((⟨b, .ge, some r, none⟩ : AlgCon).isValid bd = G.rhsIsValidGE (D.fin bd) (D.fin r) ∧ loD (some r) = G.rhsLbGE (D.fin r) ∧ hiD none = G.rhsUbGE (D.fin r)) ∧
+    ((⟨b, .gt, some r, none⟩ : AlgCon).isValid bd = G.rhsIsValidGT (D.fin bd) (D.fin r) ∧ loD (some r) = G.rhsLbGT (D.fin r) ∧ hiD none = G.rhsUbGT (D.fin r)) ∧
+    ((⟨b, .range, some l, some u⟩ : AlgCon).isValid bd = G.rangeIsValid (D.fin bd) (D.fin l) (D.fin u)) := by
+  simp only [AlgCon.isValid, Gen.SolCheck.rhsIsValidLT, Gen.SolCheck.rhsIsValidLE, Gen.SolCheck.rhsIsValidEQ,
+    Gen.SolCheck.rhsIsValidGE, Gen.SolCheck.rhsIsValidGT, Gen.SolCheck.rangeIsValid, Gen.SolCheck.rhsLbLT,
+    Gen.SolCheck.rhsUbLT, Gen.SolCheck.rhsLbLE, Gen.SolCheck.rhsUbLE, Gen.SolCheck.rhsLbEQ, Gen.SolCheck.rhsUbEQ,
+    Gen.SolCheck.rhsLbGE, Gen.SolCheck.rhsUbGE, Gen.SolCheck.rhsLbGT, Gen.SolCheck.rhsUbGT,
+    loD, hiD, D.lt, D.le, D.ge, D.gt, D.eq, D.fin, D.neg, D.pinf, ER.lt]
+  repeat' constructor
+  all_goals first | rfl | trivial | grind | (simp; done) | (simp; grind)
+
+/-! ## functional and conditional constraints -/
+
+/-- `std::max(lb - x, x - ub)` of `VarInfoImpl::bounds_viol` as a double -/
+def boundsViolD (e : Env) (i : Nat) : D :=
+  D.max' (D.sub (loD (e.lb i)) (D.fin (e.x i))) (D.sub (D.fin (e.x i)) (hiD (e.ub i)))
+
+theorem max0_boundsViolD (e : Env) (i : Nat) :
+    D.max' (D.ofInt 0) (boundsViolD e i) = D.fin (e.boundsViolPos i) := by
+  unfold boundsViolD Env.boundsViolPos
+  cases hl : e.lb i <;> cases hu : e.ub i <;>
+    simp only [loD, hiD, D.sub, D.neg, D.add, D.max', D.fin, D.ofInt, ER.lt, Rat.max_def]
+  · simp
+  · simp [ER.lt]; split <;> split <;> (try split) <;> simp <;> grind
+  · simp [ER.lt]; split <;> split <;> (try split) <;> simp <;> grind
+  · simp [ER.lt]; repeat' split
+    all_goals (simp; try grind)
+
+/-- **C07_gen_func**: the generic `ComputeViolation(CustomFunctionalConstraint)` by context / on recomputed values -/
+theorem C07_gen_func (res : Nat) (ctx : Ctx) (f : Func) (e : Env) :
+    G.funcComputeViolation e.recomp (ctxCode ctx) (D.fin (e.x res)) (D.fin (f.value e)) (D.fin (e.raw res)) (boundsViolD e res) =
+      violD (funcViol res ctx f e) := by
+  unfold funcViol violD recompViol
+  cases hr : e.recomp
+  · cases ctx <;>
+      simp [Gen.SolCheck.funcComputeViolation, ctxCode, Gen.SolCheck.ctxnone, Gen.SolCheck.ctxpos, Gen.SolCheck.ctxneg,
+        Gen.SolCheck.ctxmix, D.sub, D.neg, D.add, D.abs, D.fin, D.pinf, D.ofInt] <;> grind
+  · simp only [Gen.SolCheck.funcComputeViolation, if_true, max0_boundsViolD, Bool.not_true, Bool.false_eq_true, if_false]
+    simp [D.sub, D.neg, D.add, D.abs, D.fin]; grind
+
+/-- **C07_gen_cond**: `ConditionalConstraint::ComputeViolation` -/
+theorem C07_gen_cond (res : Nat) (ctx : Ctx) (c : AlgCon) (e : Env) :
+    G.condComputeViolation e.recomp (ctxCode ctx) (c.viol e.x).viol (D.fin (c.viol e.x).ref) (D.fin (e.x res))
+        (D.fin (e.raw res)) (boundsViolD e res) =
+      violD (condViol res ctx c e) := by
+  unfold condViol violD
+  cases hr : e.recomp
+  · simp only [Gen.SolCheck.condComputeViolation, Bool.false_eq_true, if_false]
+    generalize (c.viol e.x) = v
+    obtain ⟨viol, r⟩ := v
+    cases ctx <;> cases viol <;>
+      simp [ctxCode, Gen.SolCheck.ctxnone, Gen.SolCheck.ctxpos, Gen.SolCheck.ctxneg, Gen.SolCheck.ctxmix,
+        D.le, D.ge, D.fin, D.ofInt, D.abs, D.neg, D.pinf, ER.lt, ER.gtRat] <;>
+      (try (by_cases h1 : (1/2 : Rat) ≤ e.x res <;> (try by_cases h2 : (0 : Rat) < _) <;> simp_all <;> grind))
+  · have := C07_gen_func res ctx (.affine ⟨[], [], 0⟩) e
+    simp only [hr, funcViol, Bool.not_true, Bool.false_eq_true, if_false, violD] at this
+    simp only [Gen.SolCheck.condComputeViolation, if_true, recompViol]
+    simp only [Gen.SolCheck.funcComputeViolation, if_true] at this ⊢
+    exact this
+
+/-! ## `ViolSummary` -/
+
+/-- **C07_gen_summ**: `ViolSummary::CheckViol` / `CountViol` (count, maxima and the names attached to them) -/
+theorem C07_gen_summ (s : Summ) (c : Cand) (er : Rat) (he : c.epsrel = some er) (h : c.v.viol = .pinf → c.v.ref = 0) :
+    G.checkViol s.n s.maxAbs s.nameAbs (D.fin s.maxRel) s.nameRel c.v.viol (D.fin c.v.ref) (D.fin c.epsabs) (D.fin er) (some c.name) =
+      ((s.add c).n, (s.add c).maxAbs, (s.add c).nameAbs, D.fin (s.add c).maxRel, (s.add c).nameRel) := by
+  simp only [Gen.SolCheck.checkViol, C07_gen_check c.v c.epsabs er h, Summ.add, he]
+  cases hv : (c.v.check c.epsabs (some er)).1
+  · simp
+  · have hfin : ∀ a b : Rat, ER.lt (ER.fin a) (ER.fin b) = decide (a < b) := fun _ _ => rfl
+    simp only [if_true, Gen.SolCheck.countViol, D.lt, D.fin, hfin]
+    by_cases h1 : s.maxAbs.lt c.v.viol = true <;> by_cases h2 : s.maxRel < (c.v.check c.epsabs (some er)).2 <;>
+      simp [h1, h2]
+
+/-! ## class selection and mode bits -/
+
+/-- **C07_gen_class**: class, selection test and report slot of a constraint -/
+theorem C07_gen_class (it : Item) (mode : Nat) :
+    it.cclass = G.conClass it.bridged it.depth ∧
+    it.selected mode = (!it.unused && G.conSelected it.cclass mode) ∧
+    it.slot = G.conSlot it.cclass := by
+  refine ⟨?_, ?_, ?_⟩
+  · unfold Item.cclass Gen.SolCheck.conClass
+    cases it.bridged <;> by_cases hd : it.depth = 0 <;> simp [hd]
+  · unfold Item.selected Gen.SolCheck.conSelected
+    cases it.unused <;> by_cases h : it.cclass &&& mode = 0 <;> simp [h]
+  · unfold Item.slot Gen.SolCheck.conSlot
+    by_cases h2 : it.cclass &&& 2 = 0 <;> by_cases h8 : it.cclass &&& 8 = 0 <;> simp [h2, h8]
+
+/-- **C07_gen_masks**: the constants the model combines with `sol:chk:mode` and the code raised by `sol:chk:fail` are those
+of `CheckSolution` / `DoCheckSol` / `sol::MP_SOLUTION_CHECK` -/
+theorem C07_gen_masks :
+    G.realMask = 31 ∧ G.idealMask = 992 ∧ G.idealShift = 5 ∧ G.varsBit = 1 ∧ G.consMask = 14 ∧ G.objBit = 16 ∧
+    (∀ o oc, solveCodeOverride o oc = some G.failCode ∨ solveCodeOverride o oc = none) := by
+  refine ⟨rfl, rfl, rfl, rfl, rfl, rfl, ?_⟩
+  intro o oc
+  unfold solveCodeOverride Gen.SolCheck.failCode
+  split <;> simp
+
+/-! ## structure: which constraint types have an evaluator / a violation measure of their own -/
+
+/-- evaluators the exact model covers (`Func` constructors / `adef`), evaluators observed through the floating-point
+oracle only, and overloads that are not per-type evaluators -/
+def evalExact : List String :=
+  ["AbsConstraint", "AllDiffConstraint", "AndConstraint", "ConditionalConstraint<Con>", "CountConstraint", "DivConstraint",
+   "IfThenConstraint", "ImplicationConstraint", "LinearFunctionalConstraint", "MaxConstraint", "MinConstraint", "NotConstraint",
+   "NumberofConstConstraint", "NumberofVarConstraint", "OrConstraint", "PLConstraint", "PowConstraint",
+   "QuadraticFunctionalConstraint", "QuadraticObjective"]
+def evalFloat : List String :=
+  ["AcosConstraint", "AcoshConstraint", "AsinConstraint", "AsinhConstraint", "AtanConstraint", "AtanhConstraint", "CosConstraint",
+   "CoshConstraint", "ExpAConstraint", "ExpConstraint", "LogAConstraint", "LogConstraint", "SinConstraint", "SinhConstraint",
+   "TanConstraint", "TanhConstraint"]
+def evalOther : List String := ["GENERIC(Con)"]
+
+/-- **C07_gen_structure**: the set of `ComputeValue` overloads in the source is exactly the set the model / the float oracle
+cover, and the functions named `ComputeViolation*` are the known ones — a new or removed evaluator breaks this -/
+theorem C07_gen_structure :
+    (∀ t ∈ G.computeValueTypes, t ∈ evalExact ∨ t ∈ evalFloat ∨ t ∈ evalOther) ∧
+    (∀ t ∈ evalExact ++ evalFloat ++ evalOther, t ∈ G.computeValueTypes) ∧
+    G.computeViolationSites =
+      ["ComputeViolation(CustomFunctionalConstraint)", "ComputeViolation(ExponentialConeConstraint)",
+       "ComputeViolation(QuadraticConeConstraint)", "ComputeViolation(RotatedQuadraticConeConstraint)",
+       "ComputeViolation(VarInfo)", "ComputeViolation(VarVec)", "ComputeViolationSOS1(VarInfo)", "ComputeViolationSOS2(VarInfo)",
+       "ComputeViolations(SolCheck)"] := by
+  decide
+
+
+/-! ## 9. non-vacuity: concrete, non-trivial instances of the hypotheses (and of each direction of the iff-theorems) -/
+
+-- tolerance test (`C07_tolerance_test`, hypothesis `0 ≤ epsabs`): reported / within the relative tolerance / within the absolute one
+example : ((⟨.fin (1/2), 4⟩ : Violation).check (1/4) (some (1/16))).1 = true := by decide +kernel
+example : ((⟨.fin (1/2), 16⟩ : Violation).check (1/4) (some (1/16))).1 = false := by decide +kernel
+example : ((⟨.fin (1/4), 4⟩ : Violation).check (1/4) (some 0)).1 = false := by decide +kernel
+-- hypothesis of `C07_gen_check` / `C07_gen_summ` (an infinite amount comes with reference 0): what `CTX_NONE` produces
+example (e : Env) : (funcViol 0 .none (.abs 0) { e with recomp := false }).viol = .pinf ∧
+    (funcViol 0 .none (.abs 0) { e with recomp := false }).ref = 0 := ⟨rfl, rfl⟩
+
+/-- the row `1 ≤ 2·x0 + x1 ≤ 3` (hypothesis `lo ≤ hi` of `C07_within_alg`) -/
+def exRow : AlgCon := ⟨⟨[(2, 0), (1, 1)], [], 0⟩, .range, some 1, some 3⟩
+example : ∀ l u, exRow.lo = some l → exRow.hi = some u → l ≤ u := by
+  intro l u hl hu; simp [exRow] at hl hu; subst hl hu; decide +kernel
+example : ((exRow.viol (ptOf [1, 3/2])).check (1/4) (some 0)).1 = true := by decide +kernel      -- body 7/2 > 3 + 1/4
+example : ((exRow.viol (ptOf [1, 5/4])).check (1/4) (some 0)).1 = false := by decide +kernel     -- body 13/4 = 3 + 1/4: boundary
+example : ((exRow.viol (ptOf [0, 1/2])).check (1/4) (some 0)).1 = true := by decide +kernel      -- body 1/2 < 1 - 1/4
+
+-- `C07_recompute` / `C07_recompute_unique`: an ordered model with a definition, vector of the right length
+example : cexCondModel.ordered = true ∧ [7, 0].length = cexCondModel.nvars ∧ cexCondModel.defOf 1 ≠ none := by decide +kernel
+-- `C07_selected_con`: a selected item of a keeper of the model
+example : ∃ kp ∈ cexCondModel.keepers, ∃ it ∈ kp.items, it.selected ((cexOpts 96).mode >>> 5) = true := by decide +kernel
+-- `C07_selected_var_bounds`: bit 1 on, original variable
+example : (cexOpts 1).mode &&& 1 ≠ 0 ∧ 0 < cexCondModel.nvars ∧ (cexCondModel.var 0).orig = true := by decide +kernel
+-- `C07_pl_*`: strictly increasing points
+example : plSorted [(-1, 1), (0, 0), (2, 2), (3, 5)] := by unfold plSorted; decide +kernel
+-- `C07_infeas_skip` / `C07_checked_for_code`: both sides
+example : checkSolutionCode cexIntModel (cexOpts 1) [5/2] [] 210 = .skipped :=
+  (C07_infeas_skip _ _ _ _ _).mpr ⟨⟨by decide, by decide⟩, rfl⟩
+example : (checkSolutionCode cexIntModel (cexOpts 1) [5/2] [] 300).hasReport = true := by decide +kernel
+example : (checkSolutionCode cexIntModel { cexOpts 1 with infeas := true } [5/2] [] 210).hasReport = true := by decide +kernel
+-- `C07_fail`: with the option a report gives 150, no report gives nothing
+example : solveCodeOverride { cexOpts 1 with fail := true } (checkSolutionCode cexIntModel (cexOpts 1) [3] [] 0) = none := by decide +kernel
 
 end MpVerif.C07
